@@ -1441,10 +1441,12 @@ impl MonthShape {
         let Some(day) = self.nth_day(day_ordinal) else {
             return None;
         };
-        let Ok(date) = self.calendar.at_ymd(self.year, self.month, day) else {
-            unreachable!();
-        };
-        Some(date)
+        match self.calendar.at_ymd(self.year, self.month, day) {
+            Ok(date) => Some(date),
+            // The day exists in the calendar, but its Julian day number is
+            // out of range.
+            Err(_) => None,
+        }
     }
 
     /// Returns the range of days of the month that were skipped by a calendar
